@@ -298,7 +298,11 @@ def add_column(df: TableDataFrame, name: str, values, unit: Optional[str] = None
     keyword arguments will be forwarded to ColumnMetadata constructor together with unit
     """
     df[name] = values
-    columns = get_table_info(df, check_dataframe=False).columns
+    table_info = get_table_info(df, check_dataframe=False)
+    # The register is edited below without validation against the dataframe:
+    # force a full check at the next consultation
+    table_info._last_dataframe_state = None
+    columns = table_info.columns
 
     new_col = (
         ColumnMetadata.from_dtype(df[name].dtype, **kwargs)
